@@ -1,9 +1,10 @@
 #!/bin/bash
 # usage: tools/seed_matrix.sh [all]   applies every seeded patch to /repo in turn, runs its target check
-# (or all checks with `all`), restores /repo, and writes seeded/<name>/detected.txt
+# (or all checks with `all`; SEEDS="name name" restricts the seeds), restores /repo, and writes seeded/<name>/detected.txt
 cd /verif
 mode="${1:-target}"
-for d in seeded/*/; do
+list="seeded/*/"; [ -n "${SEEDS:-}" ] && list=$(for s in $SEEDS; do echo "seeded/$s/"; done)
+for d in $list; do
   name=$(basename "$d")
   [ -f "$d/patch.diff" ] || continue
   target=$(python3 -c "import json,sys;print(json.load(open('$d/meta.json'))['property'])" 2>/dev/null || echo "${name##*_}")
